@@ -45,4 +45,13 @@ var props = []PropSpec{
 		Stub: []string{"objects are synthetic (kind byte + random payload), not ledger nodes; the file is an in-memory stream reader"},
 		Assumptions: commonAssumptions,
 	},
+	{
+		ID: "C14", Pkg: "./accum", Scenario: "C14", Level: "fault_enumeration",
+		Quick:    Tier{Runs: 3000, WallS: 60},
+		Thorough: Tier{Runs: 120000, WallS: 600},
+		Rule: "one run = one payload (0..200 KiB) split into 1..60 reference-encoded frames with next-link fan-out 1..10 in the schema comment's layout, CRC64 / legacy FNV / no checksum, with or without total; the real LoadDataFromDataFrames is run fault-free and then once per (frame, fault) for every frame of the chain and every fault kind {drop, duplicate, bit flip, swap with the same-index frame of a second payload, index altered, next-link cycle}, plus the same payload as transaction metadata through accum.ObjectsToTransactionsAndMetadata with permuted storage order, a dropped frame and a flipped bit; evaluations = runs (each run enumerates its chain's whole fault set; the number of fault cases is probe c14.cases); distinct = distinct (chain shape digest, fault multiset); non-trivial = at least one fault case applied",
+		Real: []string{"tooling/data-frames.go", "ipld/ipldbindcode/methods.go (VerifyHash, frame accessors)", "iplddecoders (DecodeDataFrame, DecodeTransaction)", "accum/tx.go"},
+		Stub: []string{"frame store = in-memory map behind the dataFrameGetter seam"},
+		Assumptions: []string{"sequential code: no interleaving is explored; the claim rests on the fetch seam and the enumerated single-fault set", "a CRC64/FNV collision between the original and a faulted payload is treated as impossible"},
+	},
 }
